@@ -18,6 +18,11 @@ def run_probe(flex, probe, workdir):
     cxx = probe.get("lang") == "c++"
     out = os.path.join(workdir, "p.cc" if cxx else "p.c")
     cmd, r = runner.flex_generate(flex, spec, out, probe.get("flexargs", []), cwd=workdir)
+    if probe.get("fsize_below_full") and r.rc == 0 and os.path.exists(out):
+        # run again with a file size limit just below the size of the complete scanner
+        lim = os.path.getsize(out) - int(probe["fsize_below_full"])
+        r = util.run(["prlimit", "--fsize=%d" % lim] + cmd, cwd=workdir, env=flex.env(tmpdir=workdir),
+                     timeout=30)
     exp = probe.get("expect", "output")
     err = r.err.decode("latin1")
     if exp == "flex_fails":
